@@ -27,7 +27,7 @@ import (
 // is in sync, and no reference to an undefined symbol.
 
 // operand kinds of the sweep
-var shapeKinds = []string{"r8", "r16", "r32", "sreg", "creg", "imm", "immbig", "immneg", "mem", "m8", "m16", "m32", "abs", "label", "undef", "str", "far", "dollar", "fwdequ", "undefg", "mlabel", "mundef"}
+var shapeKinds = []string{"r8", "r16", "r32", "sreg", "creg", "imm", "immbig", "immneg", "mem", "m8", "m16", "m32", "abs", "label", "undef", "str", "far", "dollar", "fwdequ", "undefg", "mlabel", "mundef", "badmem"}
 
 type ShapeOp struct {
 	Kind string      `json:"k"`
@@ -74,6 +74,11 @@ func shapeOperand(kind string, variant int) sem.Operand {
 		return sem.L("qdef")
 	case "undef":
 		return sem.L(pick([]string{"qundefined", "_nosuch"}))
+	case "badmem":
+		// register combinations no addressing form exists for: whatever bytes come out cannot designate them
+		return sem.M([]sem.Mem{{Base: "SI", Index: "DI"}, {Base: "BX", Index: "BP"}, {Base: "SI", Index: "DI", Disp: 2, HasDisp: true}, {Base: "AX"}, {Base: "CX", Disp: 2, HasDisp: true},
+			{Base: "BX", Index: "CX"}, {Base: "SP"}, {Index: "EAX", Scale: 3}, {Index: "ESP", Scale: 2}, {Base: "BX", Index: "EAX"}, {Base: "EBX", Index: "SI"}, {Base: "DX"},
+			{Base: "DI", Index: "BP", Disp: 1, HasDisp: true}, {Base: "EBX", Index: "ESP", Scale: 2}, {Base: "BP", Index: "SP"}, {Base: "EAX", Index: "BX", Scale: 2}}[variant%16])
 	case "mlabel":
 		// a defined label as the address of a memory operand
 		return sem.M(sem.Mem{Size: pick([]string{"", "BYTE", "WORD", "DWORD"}), Text: "qdef"})
@@ -418,14 +423,17 @@ func mkShape(mode int, mn string, kinds []string, variant int) ShapeCase {
 	return c
 }
 
+// mnemonics gosk implements (the interesting half of the sweep: the others are refused wholesale)
+var c07Implemented = []string{"MOV", "ADD", "SUB", "CMP", "AND", "OR", "XOR", "SHL", "SHR", "SAR", "NOT", "IMUL", "IN", "OUT", "PUSH", "POP", "INT", "RET", "LGDT", "JMP", "JE", "CALL", "DB", "DW", "DD", "RESB", "ALIGNB", "HLT", "NOP", "ADC", "INC", "MUL"}
+
 var propC07 = &Prop[ShapeCase]{
 	ID:   "C07",
-	Rule: "every mnemonic of the grammar's Opcode list x operand lists of 0..3 operands of every kind (r8/r16/r32, Sreg, CRn, small/large/negative immediate, typed/untyped/absolute memory, defined label, undefined symbol, symbol declared GLOBAL but never defined, defined label / undefined symbol as the address of a memory operand, string, far pointer, $), sandwiched between correct statements with a marked label after; oracle: not diagnosed => bytes present, decode completely to the written instruction (or equal the data reference), label after in sync, no undefined symbol, operand count as the mnemonic requires; non-trivial = accepted without diagnostic (the interesting half; diagnosed cases are counted apart); distinct by (mode, statement)",
+	Rule: "every mnemonic of the grammar's Opcode list x operand lists of 0..3 operands of every kind (r8/r16/r32, Sreg, CRn, small/large/negative immediate, typed/untyped/absolute memory, defined label, undefined symbol, symbol declared GLOBAL but never defined, defined label / undefined symbol as the address of a memory operand, register combinations no addressing form exists for, string, far pointer, $), sandwiched between correct statements with a marked label after; oracle: not diagnosed => bytes present, decode completely to the written instruction (or equal the data reference), label after in sync, no undefined symbol, operand count as the mnemonic requires; non-trivial = accepted without diagnostic (the interesting half; diagnosed cases are counted apart); distinct by (mode, statement)",
 	Gen: func(t *rapid.T) ShapeCase {
 		ops := GrammarOpcodes()
 		var mn string
 		if rapid.Bool().Draw(t, "impl") {
-			mn = rapid.SampledFrom([]string{"MOV", "ADD", "SUB", "CMP", "AND", "OR", "XOR", "SHL", "SHR", "SAR", "NOT", "IMUL", "IN", "OUT", "PUSH", "POP", "INT", "RET", "LGDT", "JMP", "JE", "CALL", "DB", "DW", "DD", "RESB", "ALIGNB", "HLT", "NOP", "ADC", "INC", "MUL"}).Draw(t, "mnimpl")
+			mn = rapid.SampledFrom(c07Implemented).Draw(t, "mnimpl")
 		} else {
 			mn = ops[rapid.IntRange(0, len(ops)-1).Draw(t, "mn")]
 		}
@@ -435,6 +443,10 @@ var propC07 = &Prop[ShapeCase]{
 			kinds[i] = rapid.SampledFrom(shapeKinds).Draw(t, fmt.Sprintf("k%d", i))
 		}
 		c := mkShape(rapid.SampledFrom([]int{0, 16, 32}).Draw(t, "mode"), mn, kinds, rapid.IntRange(0, 11).Draw(t, "variant"))
+		// every operand picks its variant on its own (register number, value, shape)
+		for i := range c.Ops {
+			c.Ops[i].Op = shapeOperand(c.Ops[i].Kind, rapid.IntRange(0, 47).Draw(t, fmt.Sprintf("v%d", i)))
+		}
 		c.Org = rapid.SampledFrom([]int64{-1, 0x7c00}).Draw(t, "org")
 		return c
 	},
@@ -446,6 +458,26 @@ var propC07 = &Prop[ShapeCase]{
 				yield(mkShape(mode, mn, nil, 0))
 				for vi, k := range shapeKinds {
 					yield(mkShape(mode, mn, []string{k}, vi))
+				}
+				if in(c07Implemented, mn) {
+					// memory operands of every questionable kind, in every variant, in the usual operand shapes
+					for _, mk := range []string{"badmem", "mundef", "mlabel", "mem"} {
+						nv := map[string]int{"badmem": 16, "mundef": 8, "mlabel": 4, "mem": 4}[mk]
+						for vv := 0; vv < nv; vv++ {
+							one := mkShape(mode, mn, []string{mk}, vv)
+							yield(one)
+							for _, other := range []string{"r16", "imm"} {
+								a := mkShape(mode, mn, []string{other, mk}, 0)
+								a.Ops[1].Op = shapeOperand(mk, vv)
+								a.Ops[0].Op = shapeOperand(other, vv/2)
+								yield(a)
+								b := mkShape(mode, mn, []string{mk, other}, 0)
+								b.Ops[0].Op = shapeOperand(mk, vv)
+								b.Ops[1].Op = shapeOperand(other, vv/2)
+								yield(b)
+							}
+						}
+					}
 				}
 				if tier == "thorough" {
 					for i, k1 := range shapeKinds {
